@@ -225,8 +225,6 @@ class StmtMixin(object):
             raise OutOfReach('item store on python object %r' % (base.py,))
         k = base.ty.kind
         if k == 'dict':
-            if self.num_or_str(idx) != 'S':
-                raise OutOfReach('dict store with non-str key %r' % (idx,))
             yield self.dict_store(st, base, idx, v), None
         elif k == 'list':
             i = self.int_of(idx)
